@@ -9,7 +9,7 @@ from vf.oracles import c10
 
 REWRITES = ['mnemonic-case', 'register-case', 'gap-mnemonic-operand', 'gap-around-comma', 'gap-inside-brackets',
             'gap-around-equals', 'blank-lines', 'full-line-comments', 'trailing-comments', 'label-placement',
-            'join-instructions', 'indentation', 'gap-in-directive']
+            'join-instructions', 'indentation', 'gap-in-directive', 'final-newline']
 LABELS = ['main', 'loop_nop', 'ld_ptr', 'inr2x', 'x_jmp_tab', 'Data9', 'nib4', 'sel_', 'q4q', 'done']
 
 
@@ -243,6 +243,9 @@ def render(items, rng, kinds):
         if 'trailing-comments' in K and rng.random() < 0.4:
             line += rng.choice([' ', '', '\t', '  ']) + rng.choice(comments)
         lines.append(line)
+    if 'final-newline' in K:
+        # the last line with no newline after it, or followed by blank lines / a last line of blanks
+        return '\n'.join(lines) + rng.choice(['', '', '\n\n', '\n   ', '\n\t\n\n'])
     return '\n'.join(lines) + '\n'
 
 
